@@ -7,12 +7,17 @@ so that equivalent spellings of the same operation are one form before any rule 
   dict(k=v, ...)                           ->  {"k": v, ...}
   not (a is b), not (a in b), not a == b   ->  a is not b, a not in b, a != b
   'v{0}'.format(i), 'v{}'.format(i)         ->  f'v{i}'
+  x in [a, b]                               ->  x in (a, b)
+  a < b <= c                                ->  a < b and b <= c
   list(X.keys()), len(X.keys()) ...         ->  list(X), len(X)
+  X.get(k, None)                            ->  X.get(k)
   f(a, **{"k": v})                          ->  f(a, k=v)
   X.update({k: E for k in L})               ->  for k in L: X[k] = E
   [f(x) for x in A + B] / in [a, b] / in list(Y)  ->  [f(x) for x in A] + [f(x) for x in B] / [f(a), f(b)] / in Y
   [a, *x, b, *y]                            ->  [a] + list(x) + [b] + list(y)
   not f(x).all()                            ->  (~f(x)).any()
+  i = 0; while i < N: BODY; i += 1 [else]   ->  for i in range(N): BODY [else]      (normalize_loops; conditions in its docstring)
+  x = A if c else B;  return A if c else B  ->  if c: x = A else: x = B;  if c: return A else: return B
   x if not c else y                        ->  y if c else x   (also for `is not None`, `!=`, `not in` tests)
 """
 import ast
@@ -66,6 +71,9 @@ class _N(ast.NodeTransformer):
             a0 = n.args[0]
             if isinstance(a0, ast.Call) and isinstance(a0.func, ast.Attribute) and a0.func.attr == "keys" and not a0.args and not a0.keywords:
                 n.args = [a0.func.value]
+        # X.get(k, None) -> X.get(k)
+        if isinstance(f, ast.Attribute) and f.attr == "get" and len(n.args) == 2 and not n.keywords and isinstance(n.args[1], ast.Constant) and n.args[1].value is None:
+            n.args = n.args[:1]
         # f(a, **{"k": v})  ->  f(a, k=v)
         if any(k.arg is None and isinstance(k.value, ast.Dict) for k in n.keywords):
             kws = []
@@ -157,6 +165,28 @@ class _N(ast.NodeTransformer):
         self.generic_visit(n)
         return _distribute(n)
 
+    def visit_Assign(self, n):
+        self.generic_visit(n)
+        # x = A if c else B   ->   if c: x = A  else: x = B      (one evaluation of c either way)
+        if isinstance(n.value, ast.IfExp) and len(n.targets) == 1 and isinstance(n.targets[0], ast.Name):
+            import copy
+            v = n.value
+            a = ast.copy_location(ast.Assign(targets=[copy.deepcopy(n.targets[0])], value=v.body), n)
+            b = ast.copy_location(ast.Assign(targets=[copy.deepcopy(n.targets[0])], value=v.orelse), n)
+            return ast.copy_location(ast.If(test=v.test, body=[self.visit_Assign(a)] if isinstance(v.body, ast.IfExp) else [a],
+                                            orelse=[self.visit_Assign(b)] if isinstance(v.orelse, ast.IfExp) else [b]), n)
+        return n
+
+    def visit_Return(self, n):
+        self.generic_visit(n)
+        # return A if c else B   ->   if c: return A  else: return B
+        if isinstance(n.value, ast.IfExp):
+            v = n.value
+            a = ast.copy_location(ast.Return(value=v.body), n)
+            b = ast.copy_location(ast.Return(value=v.orelse), n)
+            return ast.copy_location(ast.If(test=v.test, body=[self.visit_Return(a)], orelse=[self.visit_Return(b)]), n)
+        return n
+
     def visit_Expr(self, n):
         self.generic_visit(n)
         # X.update({k: E for k in L})  ->  for k in L: X[k] = E
@@ -172,6 +202,22 @@ class _N(ast.NodeTransformer):
                 body = ast.Assign(targets=[tgt], value=dc.value, lineno=n.lineno, col_offset=n.col_offset)
                 loop = ast.For(target=_store(g.target), iter=g.iter, body=[body], orelse=[], lineno=n.lineno, col_offset=n.col_offset)
                 return ast.copy_location(loop, n)
+        return n
+
+    def visit_Compare(self, n):
+        self.generic_visit(n)
+        # x in [a, b]  ->  x in (a, b)     (membership in a literal display)
+        if len(n.ops) == 1 and isinstance(n.ops[0], (ast.In, ast.NotIn)) and isinstance(n.comparators[0], ast.List) \
+                and not any(isinstance(e, ast.Starred) for e in n.comparators[0].elts):
+            n.comparators = [ast.copy_location(ast.Tuple(elts=n.comparators[0].elts, ctx=ast.Load()), n.comparators[0])]
+        # a < b <= c  ->  a < b and b <= c   (the shared operands are names / attributes / literals: evaluating them twice changes nothing)
+        if len(n.ops) > 1 and all(isinstance(x, (ast.Name, ast.Constant, ast.Attribute)) for x in n.comparators[:-1]):
+            parts = []
+            left = n.left
+            for op, right in zip(n.ops, n.comparators):
+                parts.append(ast.Compare(left=left, ops=[op], comparators=[right]))
+                left = right
+            return ast.copy_location(ast.BoolOp(op=ast.And(), values=parts), n)
         return n
 
     def visit_UnaryOp(self, n):
@@ -255,6 +301,83 @@ def _distribute(n):
             and all(isinstance(e, (ast.Constant, ast.Name)) for e in it.elts):
         return ast.copy_location(ast.List(elts=[_subst_name(n.elt, g.target.id, e) for e in it.elts], ctx=ast.Load()), n)
     return n
+
+
+def normalize_loops(fn):
+    """counted while -> for (in place, function level):
+
+        i = 0                       for i in range(N):
+        while i < N:          ->        BODY
+            BODY                    else: E
+            i += 1
+        else: E
+
+    when BODY contains no `continue`, assigns neither i nor anything N reads, `i += 1` is its last statement, and i is not read after the loop."""
+    changed = False
+
+    def names(e):
+        return {n.id for n in ast.walk(e) if isinstance(n, ast.Name)}
+
+    def do_block(stmts, after_reads):
+        nonlocal changed
+        out = []
+        k = 0
+        while k < len(stmts):
+            s0 = stmts[k]
+            s1 = stmts[k + 1] if k + 1 < len(stmts) else None
+            if isinstance(s0, ast.Assign) and len(s0.targets) == 1 and isinstance(s0.targets[0], ast.Name) and isinstance(s0.value, ast.Constant) and s0.value.value == 0 \
+                    and type(s0.value.value) is int and isinstance(s1, ast.While):
+                i = s0.targets[0].id
+                t = s1.test
+                ok = isinstance(t, ast.Compare) and len(t.ops) == 1 and isinstance(t.ops[0], ast.Lt) and isinstance(t.left, ast.Name) and t.left.id == i and s1.body
+                if ok:
+                    N = t.comparators[0]
+                    last = s1.body[-1]
+                    ok = isinstance(last, ast.AugAssign) and isinstance(last.op, ast.Add) and isinstance(last.target, ast.Name) and last.target.id == i \
+                        and isinstance(last.value, ast.Constant) and last.value.value == 1
+                if ok:
+                    body = s1.body[:-1]
+                    assigned = set()
+                    for b in body:
+                        for n in ast.walk(b):
+                            if isinstance(n, ast.Name) and isinstance(n.ctx, (ast.Store, ast.Del)):
+                                assigned.add(n.id)
+                            if isinstance(n, ast.Continue):
+                                ok = False
+                            if isinstance(n, (ast.FunctionDef, ast.Lambda)):
+                                ok = False
+                    ok = ok and i not in assigned and not (assigned & names(N)) and i not in names(N)
+                    rest_reads = set()
+                    for r in stmts[k + 2:]:
+                        rest_reads |= {n.id for n in ast.walk(r) if isinstance(n, ast.Name) and isinstance(n.ctx, ast.Load)}
+                    else_reads = set()
+                    for r in s1.orelse:
+                        else_reads |= {n.id for n in ast.walk(r) if isinstance(n, ast.Name) and isinstance(n.ctx, ast.Load)}
+                    ok = ok and i not in rest_reads and i not in after_reads and i not in else_reads and bool(body)
+                if ok:
+                    rng = ast.Call(func=ast.Name(id="range", ctx=ast.Load()), args=[N], keywords=[])
+                    new = ast.For(target=ast.Name(id=i, ctx=ast.Store()), iter=rng, body=body, orelse=s1.orelse, lineno=s1.lineno, col_offset=s1.col_offset)
+                    ast.copy_location(new, s1)
+                    out.append(new)
+                    changed = True
+                    k += 2
+                    continue
+            out.append(s0)
+            k += 1
+        for s_ in out:
+            for f in ("body", "orelse", "finalbody"):
+                sub = getattr(s_, f, None)
+                if isinstance(sub, list) and sub and isinstance(sub[0], ast.stmt) and not isinstance(s_, (ast.FunctionDef, ast.AsyncFunctionDef, ast.ClassDef)):
+                    setattr(s_, f, do_block(sub, after_reads | {"*"}))
+            if isinstance(s_, ast.Try):
+                for h in s_.handlers:
+                    h.body = do_block(h.body, after_reads | {"*"})
+        return out
+
+    fn.body = do_block(fn.body, set())
+    if changed:
+        ast.fix_missing_locations(fn)
+    return changed
 
 
 def normalize(tree):
